@@ -1,7 +1,7 @@
 """Reachability model written from the statement of C04 / C18 (independent of the solver's search)."""
 
 
-def supplied_junctions(spec):
+def supplied_junctions(spec, relax=()):
     """Set of junction names that can be reached from an in-service pressure-fixing element through
     in-service, open, hydraulically connecting branches.
 
@@ -11,6 +11,10 @@ def supplied_junctions(spec):
     - directed from -> to: in-service pressure controllers
     - not connecting: active flow controllers, heat consumers, closed valves, out-of-service elements
     """
+    # relax: deviations from the statement used to classify what a topology tool does instead
+    #   "fc_connects" (active flow controllers and heat consumers connect), "pc_undirected", "t_grid_supply",
+    #   "circ_pump_not_supply"
+    relax = set(relax)
     jin = {j["name"]: j.get("in_service", True) for j in spec["junctions"]}
     adj = {j: set() for j in jin}
 
@@ -34,18 +38,23 @@ def supplied_junctions(spec):
             if ins:
                 und(e["from_junction"], e["to_junction"])
         elif k == "flow_control":
-            if ins and not e.get("control_active", True):
+            if ins and (not e.get("control_active", True) or "fc_connects" in relax):
+                und(e["from_junction"], e["to_junction"])
+        elif k == "heat_consumer":
+            if ins and "fc_connects" in relax:
                 und(e["from_junction"], e["to_junction"])
         elif k == "press_control":
             if ins:
                 adj[e["from_junction"]].add(e["to_junction"])
+                if "pc_undirected" in relax:
+                    adj[e["to_junction"]].add(e["from_junction"])
         elif k in ("circ_pump_mass", "circ_pump_pressure"):
             if ins:
                 und(e["return_junction"], e["flow_junction"])
-                if jin[e["flow_junction"]]:
+                if jin[e["flow_junction"]] and "circ_pump_not_supply" not in relax:
                     starts.append(e["flow_junction"])
         elif k == "ext_grid":
-            if ins and "p" in str(e.get("type", "pt")) and jin[e["junction"]]:
+            if ins and ("p" in str(e.get("type", "pt")) or "t_grid_supply" in relax) and jin[e["junction"]]:
                 starts.append(e["junction"])
     seen = set(starts)
     stack = list(starts)
